@@ -284,4 +284,34 @@ theorem transform_symm6 (tol : K) (axes : M33 K) (norms : Fin 3 → K) (c z : M6
     refine setCijkl_symm _ (cleanT4_major _ _ _ (rot_major T ?_)) z hz
     intro i j k l; simp only [cijklGet_eq]; exact hc _ _
 
+/-! ### unit systems: the clean-up of `transform` is relative -/
+
+theorem maxK_mul_left (a x y : K) (ha : 0 < a) : maxK (a * x) (a * y) = a * maxK x y := by
+  unfold maxK
+  by_cases h : x < y
+  · have : a * x < a * y := mul_lt_mul_of_pos_left h ha
+    simp [h, this]
+  · have : ¬ a * x < a * y := fun h' => h (lt_of_mul_lt_mul_left h' (le_of_lt ha))
+    simp [h, this]
+
+theorem foldl_maxK_mul (a : K) (ha : 0 < a) (xs : List K) (x : K) :
+    (xs.map (a * ·)).foldl maxK (a * x) = a * xs.foldl maxK x := by
+  induction xs generalizing x with
+  | nil => rfl
+  | cons y ys ih => simp only [List.map_cons, List.foldl_cons, maxK_mul_left _ _ _ ha, ih]
+
+theorem max4_smul (a : K) (ha : 0 < a) (C : T4 K) : max4 (fun i j k l => a * C i j k l) = a * max4 C := by
+  have h : T4.toList (fun i j k l => a * C i j k l) = (T4.toList C).map (a * ·) := by
+    simp only [T4.toList, List.map_map, Function.comp_def]
+  rw [max4, h, max4]
+  cases hC : T4.toList C with
+  | nil => simp [T4.toList, idx4, idx3] at hC
+  | cons x xs => simp only [List.map_cons, maxList, foldl_maxK_mul a ha]
+
+theorem cleanT4_smul (tol a : K) (ha : 0 < a) (C : T4 K) (i j k l : Fin 3) :
+    cleanT4 tol (max4 (fun i j k l => a * C i j k l)) (fun i j k l => a * C i j k l) i j k l
+      = a * cleanT4 tol (max4 C) C i j k l := by
+  simp only [cleanT4, max4_smul a ha, mul_div_mul_left _ _ (ne_of_gt ha)]
+  split <;> simp
+
 end Atomman.C11
